@@ -390,3 +390,7 @@ def detector_to_xarray(u: Unit):
                 ok_vals = all(stored[b] is exp.get(b) for b in stored)
                 u.oblige(p, f"detector.to_xarray.every_initialised_bucket_with_its_own_export[{tag}]", z3.And(ok_names, zb(ok_vals)), {"stored": str(sorted(stored))}, DEBUG_REPLAY)
             u.cover(f"detector.to_xarray.cover[{tag}]", ps, lambda p: p.kind == "return")
+
+
+from . import C14 as _C14  # noqa: E402
+unit("C03", "charge.array_current")(_C14.array_current)   # what a snapshot reads from the charge container is the table as it is NOW (in-place edits included)
